@@ -160,8 +160,9 @@ type ChecksumKind uint8
 //
 // [include/llvm/IR/DebugInfoMetadata.h]: https://github.com/llvm/llvm-project/blob/main/llvm/include/llvm/IR/DebugInfoMetadata.h
 const (
-	ChecksumKindMD5  ChecksumKind = 1 // CSK_MD5
-	ChecksumKindSHA1 ChecksumKind = 2 // CSK_SHA1
+	ChecksumKindMD5    ChecksumKind = 1 // CSK_MD5
+	ChecksumKindSHA1   ChecksumKind = 2 // CSK_SHA1
+	ChecksumKindSHA256 ChecksumKind = 3 // CSK_SHA256
 )
 
 //go:generate stringer -linecomment -type ClauseType
